@@ -188,7 +188,49 @@ __CPROVER_decreases(j)
 void h_OffsetOpenPath(void) { ClipperOffset* s; Group* g; Path64 p; OffsetOpenPath(s, g, p); VF_CANARY(); }
 #endif
 #endif
+/* ================= OffsetOpenJoined, BOUNDED (path of 2..4 points): the way back is the reversed path with the reversed normals ================= */
+#ifdef JOINED
+/* models of the std algorithms used (spec-level: reverse, push_back of a copy, erase of the first element) and of NegatePath */
+static void vf_reverse_pts(Point64* d, size_t n) { for (size_t i = 0; i < n / 2; ++i) { Point64 t = d[i]; d[i] = d[n - 1 - i]; d[n - 1 - i] = t; } }
+static void vf_reverse_nrm(PointD* d, size_t n) { for (size_t i = 0; i < n / 2; ++i) { PointD t = d[i]; d[i] = d[n - 1 - i]; d[n - 1 - i] = t; } }
+static void vf_rotate_left_nrm(PointD* d, size_t n) { PointD f = d[0]; for (size_t i = 0; i + 1 < n; ++i) d[i] = d[i + 1]; d[n - 1] = f; }   /* emplace_back(norms[0]); erase(begin()) */
+//@expect file=CPP/Clipper2Lib/src/clipper.offset.cpp /norms\.emplace_back\(norms\[0\]\);\s*norms\.erase\(norms\.begin\(\)\);/
+//@extract file=CPP/Clipper2Lib/src/clipper.offset.cpp func=NegatePath byptr=path rangefor=1 cpp=NOTHING ifdef=JOINED
+//@sub /PathD\* path/PathD* path/ min=0
+//@end
+int g_poly_n; Point64 g_call_pts[2][4]; PointD g_call_nrm[2][4]; size_t g_call_len[2];
+void OffsetPolygon__j(ClipperOffset* self, Group* group, Path64 path)
+{ __CPROVER_assert(g_poly_n < 2 && path.size <= 4 && self->norms.size == path.size, "at most two polygon passes over a path with as many normals");
+  g_call_len[g_poly_n] = path.size; for (size_t i = 0; i < 4; ++i) if (i < path.size) { g_call_pts[g_poly_n][i] = path.data[i]; g_call_nrm[g_poly_n][i] = self->norms.data[i]; } g_poly_n++; }
+#define OffsetPolygon(g_, p_) OffsetPolygon__j(self, &(g_), p_)
+Point64 g_rev_buf[4];
+//@extract file=CPP/Clipper2Lib/src/clipper.offset.cpp func=ClipperOffset::OffsetOpenJoined self=ClipperOffset byptr=group byval=path vec=path,norms members=norms ifdef=JOINED
+//@presub /Path64 reverse_path\(path\);/Path64 reverse_path = { g_rev_buf, path.size() }; for (size_t cc = 0; cc < path.size(); ++cc) g_rev_buf[cc] = path[cc];/
+//@presub /std::reverse\(reverse_path\.begin\(\), reverse_path\.end\(\)\);/vf_reverse_pts(reverse_path.data, reverse_path.size);/
+//@presub /std::reverse\(norms\.begin\(\), norms\.end\(\)\);/vf_reverse_nrm(norms.data, norms.size());/
+//@presub /norms\.emplace_back\(norms\[0\]\);\s*norms\.erase\(norms\.begin\(\)\);/vf_rotate_left_nrm(norms.data, norms.size());/
+//@sub /NegatePath\(self->norms\);/NegatePath(&self->norms);/
+//@end
+unsigned nondet_uint(void); int64_t nondet_i64(void); double nondet_double(void);
+void h_Joined(void)
+{
+  ClipperOffset co; Group g; Point64 pts[4]; PointD nrm[4]; size_t n = nondet_uint(); __CPROVER_assume(n >= 2 && n <= 4);
+  for (int i = 0; i < 4; ++i) { pts[i].x = nondet_i64(); pts[i].y = nondet_i64(); nrm[i].x = nondet_double(); nrm[i].y = nondet_double(); __CPROVER_assume(!__CPROVER_isnand(nrm[i].x) && !__CPROVER_isnand(nrm[i].y)); }
+  Path64 path = { pts, n }; co.norms.data = nrm; co.norms.size = n; g_poly_n = 0;
+  PointD n0[4]; for (int i = 0; i < 4; ++i) n0[i] = nrm[i];
+  OffsetOpenJoined(&co, &g, path);
+  __CPROVER_assert(g_poly_n == 2 && g_call_len[0] == n && g_call_len[1] == n, "two polygon passes over n vertices each");
+  for (size_t i = 0; i < 4; ++i) if (i < n) {
+    __CPROVER_assert(g_call_pts[0][i].x == pts[i].x && g_call_pts[0][i].y == pts[i].y && g_call_nrm[0][i].x == n0[i].x && g_call_nrm[0][i].y == n0[i].y, "first pass: the path and its normals as given");
+    __CPROVER_assert(g_call_pts[1][i].x == pts[n - 1 - i].x && g_call_pts[1][i].y == pts[n - 1 - i].y, "second pass: the reversed path");
+    size_t e = (i == n - 1) ? n - 1 : n - 2 - i;     /* edge i of the reversed path is edge e of the path, traversed backwards */
+    __CPROVER_assert(g_call_nrm[1][i].x == -n0[e].x && g_call_nrm[1][i].y == -n0[e].y, "second pass: normal of edge i of the reversed path == minus the normal of the same edge of the path");
+  }
+  VF_CANARY();
+}
+#endif
 //@run name=OffsetPoint entry=h_OffsetPoint enforce=OffsetPoint replace=vf_cross,vf_dot,vf_atan2,DoMiter,DoSquare,DoBevel,DoRound,GetPerpendic,vf_push flags="--bounds-check --pointer-check --unsigned-overflow-check" timeout=300
 //@run name=OffsetPolygon entry=h_OffsetPolygon enforce=OffsetPolygon replace=OffsetPoint__p,vf_emit_solution loops=1 defs=PATHS,POLY flags="--bounds-check --pointer-check --unsigned-overflow-check" timeout=300
 //@run name=OffsetOpenPath entry=h_OffsetOpenPath enforce=OffsetOpenPath replace=OffsetPoint__p,CapSquare,CapBevel,CapRound,vf_push,vf_emit_solution loops=1 defs=PATHS,OPEN flags="--bounds-check --pointer-check --unsigned-overflow-check" timeout=600
-//@assume A5 (C06_offsetpoint): the four join constructions, GetPerpendic, CrossProduct/DotProduct of the unit normals and atan2 are stubs (the turn's sine and cosine are ghost inputs); the delta callback is not modelled (deltaCallback64_ == nullptr); OffsetOpenJoined is not under contract.
+//@assume A5 (C06_offsetpoint): the four join constructions, GetPerpendic, CrossProduct/DotProduct of the unit normals and atan2 are stubs (the turn's sine and cosine are ghost inputs); the delta callback is not modelled (deltaCallback64_ == nullptr); OffsetOpenJoined is checked bounded (2..4 points) with std::reverse and emplace_back+erase replaced by spec-level models.
+//@run name=OffsetOpenJoined.bounded entry=h_Joined defs=JOINED unwind=6 flags="--bounds-check --pointer-check" timeout=300 bounded="path of 2..4 points; std::reverse / emplace_back+erase replaced by spec-level models"
